@@ -27,7 +27,7 @@ META = {
   "design_ref": "DESIGN.md 4 (C05)", "note": "Trusted base: harness + rapid; no reference model involved.",
   "technique": "property-based testing (rapid) with per-case exhaustive prefix enumeration; metamorphic (prefix vs full name) + independent prefix-set oracle"},
  "C06": {
-  "text": "Property-based search over definitions with alias lists and structured argv plans: run as written vs. run with every occurrence rewritten to the primary name (equal except CalledAs); by-construction Called/CalledAs/default expectations for every option at every level through every key; pointer, Var target and Value() agree." + _HELD,
+  "text": "Property-based search over definitions with alias lists and structured argv plans: run as written vs. run with every occurrence rewritten to the primary name (equal except CalledAs); by-construction Called/CalledAs/default expectations for every option at every level through every key; pointer, Var target and Value() agree (also under SetMapKeysToLower and SetValue pre-sets); parsing the same command line twice on one object leaves Called/CalledAs unchanged." + _HELD,
   "design_ref": "DESIGN.md 4 (C06)", "note": _CLI_NOTE + " The model only confirms that the planned occurrences are the ones the command line addresses.",
   "technique": "metamorphic property-based testing (rapid) + by-construction non-interference invariant"},
  "C07": {
@@ -55,24 +55,24 @@ META = {
   "design_ref": "DESIGN.md 4 (C12)", "note": "Trusted base: harness + strconv. For environment text invalid for the type only the value is asserted.",
   "technique": "property-based testing (rapid) + exhaustive small-scope enumeration against a precedence table"},
  "C13": {
-  "text": "Controlled-scheduler property-based testing: the harness owns completion order and outcomes (generated, shrinkable, replayable); entry invariants checked at every task entry over random graphs x modes x retries; every completion order enumerated exhaustively for all labelled DAGs up to 4 tasks (5 in thorough, success-only); free-running variant with plain shared slots under the race detector for visibility." + _HELD,
+  "text": "Controlled-scheduler property-based testing: the harness owns completion order and outcomes (generated, shrinkable, replayable); entry invariants checked at every task entry over random graphs x modes x retries; every completion order enumerated exhaustively for all labelled DAGs up to 4 tasks (5 in thorough, success-only); free-running variants under the race detector: plain shared slots for visibility, and two concurrently running graphs over the same Task objects in which tasks that never return nil must keep their dependents from starting in either graph; DepthFirstSort calls in the middle of the definition." + _HELD,
   "design_ref": "DESIGN.md 5 (C13)", "note": _DAG_NOTE,
   "technique": "stateful property-based testing with a harness-owned schedule (rapid) + exhaustive small-scope schedule enumeration + race-detector runs"},
  "C14": {
-  "text": "Same controlled scheduler with generated fault sequences (error / ErrorSkipParents / fail-then-succeed) and cancel points: no dependent of a failed or skipping task starts, nothing not-yet-ready starts after cancel() returned, and Run's result is checked exactly (errors.As *Errors, entry per failed task, exactly one ErrorTaskSkipped entry per never-started task outside ErrorSkipParents cover, nil iff clean). Exhaustive over all DAGs<=4 x outcome assignments x orders." + _HELD,
+  "text": "Same controlled scheduler with generated fault sequences (error / ErrorSkipParents / fail-then-succeed) and cancel points: no dependent of a failed or skipping task starts, nothing not-yet-ready starts after cancel() returned, and Run's result is checked exactly (errors.As *Errors, entry per failed task, exactly one ErrorTaskSkipped entry per never-started task outside ErrorSkipParents cover, nil iff clean, ErrorSkipParents alone never makes Run fail; also judged after a confirmed stall once everything was let go). Exhaustive over all DAGs<=4 x outcome assignments x orders." + _HELD,
   "design_ref": "DESIGN.md 5 (C14)", "note": _DAG_NOTE,
   "technique": "fault-injecting stateful property-based testing (rapid) + exhaustive small-scope enumeration of outcomes x completion orders"},
  "C15": {
-  "text": "Same controlled scheduler with wide graphs and binding limits: in-flight count at every entry <= SetMaxParallel(m) / 1 in serial mode; buffered output must arrive as contiguous per-attempt blocks although fragments of concurrent tasks are forced to interleave; free-running read-spin-write counter (serial, m=1) and Tasks shared by two concurrently running graphs under the race detector." + _HELD,
+  "text": "Same controlled scheduler with wide graphs and binding limits: in-flight count at every entry <= SetMaxParallel(m) / 1 in serial mode; buffered output must arrive as contiguous per-attempt blocks although fragments of concurrent tasks are forced to interleave; free-running read-spin-write counter (serial, m=1) and Tasks shared by two concurrently running graphs (also when one graph first learned the id through another Task object) under the race detector; staged runs of one graph (Run, add tasks, SetMaxParallel(new), Run) against the limit in force at each Run." + _HELD,
   "design_ref": "DESIGN.md 5 (C15)", "note": _DAG_NOTE,
   "technique": "stateful property-based testing with a harness-owned schedule (rapid) + race-detector runs of free-running variants"},
  "C16": {
-  "text": "Property-based testing over graph-construction call histories (re-adds, duplicate edges, self/back edges) x schedules: Run returns within a bounded wait once everything was released, exactly min(capacity, running+ready) tasks are in flight at every quiescent point (work conservation), cycles are rejected before any task starts with ErrorGraphHasCycle, DepthFirstSort is a valid topological order." + _HELD,
+  "text": "Property-based testing over graph-construction call histories (re-adds, duplicate edges, self/back edges, DepthFirstSort calls in the middle of the definition, SetOutputBuffer) x schedules: Run returns within a bounded wait once everything was released, exactly min(capacity, running+ready) tasks are in flight at every quiescent point (work conservation), cycles are rejected before any task starts with ErrorGraphHasCycle, DepthFirstSort is a valid topological order of the graph described so far; a cycle closed between two Runs of one graph is rejected by the second Run." + _HELD,
   "design_ref": "DESIGN.md 5 (C16)", "note": _DAG_NOTE + " A stall is reported only with its signature and after an isolated replay with a 30 s bound.",
   "technique": "stateful (call-history) property-based testing (rapid) with bounded-wait liveness oracle + exhaustive small-scope enumeration"},
  "C17": {
   "text": "Property-based search over command trees x COMP_LINE texts x bash/zsh, in-process through the exit/writer hook: candidate sets compared as sets with an independent computation (names/aliases with the typed prefix at the level reached; subcommands + static + dynamic suggestions; suggested/valid values), sortedness, exit exactly once with 124, no CommandFn, and every offered option/command is accepted by the real parser at that position." + _HELD,
-  "design_ref": "DESIGN.md 4 (C17)", "note": _CLI_NOTE + " Uses the verif hook (exit function, completion writer). Require-order trees and `--` among earlier words are outside the statement.",
+  "design_ref": "DESIGN.md 4 (C17)", "note": _CLI_NOTE + " Uses the verif hook (exit function, completion writer). Require-order on the program (the program name is then the stop token) and `--` among earlier words are outside the statement; wrapper commands with require-order are judged until their stop token.",
   "technique": "property-based testing (rapid) with set-equality oracle + parser cross-check; rapid-via-native-fuzz in thorough"},
  "C18": {
   "text": "Property-based search over trees in which every one of the 12 option kinds occurs: the help text of every level is read structurally (sections via exported headers, entries via indentation) and compared with the definition (each option once with exactly its aliases, required section, default, env, synopsis mention, subcommands with descriptions), and compared byte for byte across Help(), help option, help command, help <topic>." + _HELD,
